@@ -154,6 +154,16 @@ func c09Content(res *explore.Result, content string, pi int, verbose bool) {
 				want = pb(parsley.Pos(base+cur+k), rest[:k])
 			}
 			check("ReadRegexp", "`[^a]`", func() string { return pb(r.ReadRegexp(pos, "[^a]")) }, want)
+			// a top-level alternation must be anchored at the cursor as a whole
+			k = 0
+			if bytes.HasPrefix(rest, []byte("a_")) || bytes.HasPrefix(rest, []byte("_a")) {
+				k = 2
+			}
+			want = pb(pos, nil)
+			if k > 0 {
+				want = pb(parsley.Pos(base+cur+k), rest[:k])
+			}
+			check("ReadRegexp", "`a_|_a`", func() string { return pb(r.ReadRegexp(pos, "a_|_a")) }, want)
 			k, sub := reAOptUnderscore(rest)
 			ps := func(p parsley.Pos, m [][]byte) string {
 				if m == nil {
